@@ -1,5 +1,5 @@
 (* Entry point of the extracted model: one request (an s-expression) in, one out. *)
-Require Import BB.Base.Str BB.Base.Sx BB.Base.Xml BB.Model.PreParse BB.Model.Eid BB.Model.PegSyntax BB.Model.Peg BB.Gen.Grammar.
+Require Import BB.Base.Str BB.Base.Sx BB.Base.Xml BB.Model.PreParse BB.Model.Eid BB.Model.PegSyntax BB.Model.Peg BB.Gen.Grammar BB.Base.Dict BB.Model.Types.
 Open Scope N_scope.
 
 Definition opt_str_sx (o : option str) : sx :=
@@ -29,6 +29,20 @@ Definition dispatch (req : sx) : sx :=
       else if str_eqb stage (of_string "peg") then
         match args with
         | [A rule; A text] => run_rule_sx akn_peg rule text
+        | _ => sx_err "BadRequest"
+        end
+      else if str_eqb stage (of_string "dict") then
+        match args with
+        | [A rule; A text] =>
+            match parse akn_peg rule text with
+            | PFail => sx_err "ParseError"
+            | PFuel => sx_err "Fuel"
+            | POk t =>
+                match tree_to_dict text t with
+                | OkR d => dnode_to_sx d
+                | ErrR k => L [A (of_string "ERR"); A k]
+                end
+            end
         | _ => sx_err "BadRequest"
         end
       else if str_eqb stage (of_string "clean_num") then
